@@ -2307,8 +2307,13 @@ class RlWriter:
                 table.remove_child(
                     row
                 )  # this is slight a hack. we do this in order not to simplify cell-coloring code
+                # a nested table is written twice (once to size the enclosing
+                # table): keep the caption for the second time
+                table.removed_caption = row
             elif row.__class__ != advtree.Row:
                 table.remove_child(row)
+        if not res and getattr(table, "removed_caption", None) is not None:
+            res = self.writeCaption(table.removed_caption)
         return res
 
     def writeCell(self, cell):
